@@ -3,6 +3,7 @@ C02 — entries read back with exactly the property values they were written wit
 -/
 import JubakoModel.Model.DirWriter
 import JubakoModel.Lemmas.DirCodec
+import JubakoModel.Lemmas.DirFile
 
 namespace Jubako
 
@@ -93,5 +94,48 @@ theorem c02_variant_padding (n : Nat) :
 example : fitsSigned 128 2 ∧ ¬ fitsSigned 128 1 ∧ fitsSigned (-300) 2 ∧ neededBytes (signedSizeKey 128) = 2 ∧
     neededBytes (signedSizeKey (-300)) = 2 ∧ neededBytes (signedSizeKey (-128)) = 1 := by
   refine ⟨by unfold fitsSigned; omega, by unfold fitsSigned; omega, by unfold fitsSigned; omega, by decide, by decide, by decide⟩
+
+/-! ### File level
+
+`DirIn` is the writer's input (value-store kinds and contents, schema, entries in stored order,
+indexes); `dirPackWrite` the bytes of the directory pack; `dirGetEntry f 0 i` what the reader
+decodes for entry `i` of the entry store (`DirectoryPack::new`, offset tables, `entryStoreOpen`,
+`Layout.decode`, value stores on demand, `decodeEntry`); `expectedEntry` the variant id and the
+values paired with their property names, common properties first. -/
+
+/-- **File-level round trip of the directory pack.**  For every writer input `d` (value store
+    kinds, schema with variants, entries in stored order, index definitions) that is well formed
+    (`DirIn.WF`: names are p-strings, array prefixes ≤ 31 bytes, store indexes exist, at most 255
+    stores; every entry carries a variant id iff the schema has variants, one value per property,
+    of the declared type, integers within 64 bits, arrays shorter than 2^24 bytes, pack ids
+    within 16 bits and content ids within 32 bits) and within the size limits of the format
+    (`DirIn.Limits`), decoding entry `i` of the only entry store out of the bytes of the written
+    pack returns exactly the variant id and the values of the `i`-th entry given to the writer,
+    each paired with its property name, common properties first.
+
+    The composition is the one the correspondence check runs: `dp.encode` = `dirPackWrite`
+    (`VStore.finalize` per store, `finalizeSchema`, `serializeEntry`, tails and tables),
+    `dp.decode` = `dirGetEntry` (`directoryOpen`, `entryStoreOpen`, `Layout.decode`,
+    `valueStoreOpen`, `decodeEntry`).  `H` (the hash of the check block) is arbitrary. -/
+theorem c02_file_roundtrip (H : Bytes → Bytes) (vendor uuid freeData : Bytes) (d : DirIn)
+    (hwf : d.WF) (hl : d.Limits H vendor uuid freeData) (i : Nat) (hi : i < d.entries.length) :
+    dirGetEntry (dirPackWrite H vendor uuid freeData d) 0 i =
+      .ok (expectedEntry d.schema d.entries[i]) :=
+  dirGetEntry_dirPackWrite H vendor uuid freeData d hwf hl i hi
+
+/-- … and beyond the stored entries the reader finds nothing -/
+theorem c02_file_past_end (H : Bytes → Bytes) (vendor uuid freeData : Bytes)
+    (d : DirIn) (hwf : d.WF) (hl : d.Limits H vendor uuid freeData) (i : Nat)
+    (hi : d.entries.length ≤ i) :
+    dirGetEntry (dirPackWrite H vendor uuid freeData d) 0 i = .err .other :=
+  dirGetEntry_dirPackWrite_none H vendor uuid freeData d hwf hl i hi
+
+
+/-- non-vacuity: the three example inputs of Lemmas/DirFile.lean satisfy `DirIn.WF` and
+    `DirIn.Limits` (by `decide` / computation), among them unsigned, signed (−129, 128, ±2^15
+    boundary), arrays with inline prefix + plain-store remainder, indirect arrays in an indexed
+    store, two variants with padding, a content address column with a constant pack id -/
+example := @DirFileExample.input
+example := @DirFileExample.input2
 
 end Jubako
